@@ -117,7 +117,7 @@ static void * t_sleeps(void * a) {
   long me = (long)a; long ok = 0;
   if (me) usleep(100000 * me);               /* threads start their measured sleeps at different phases of the second */
   long long t0 = now_ns(); int r1 = usleep(400000); long long t1 = now_ns();
-  struct timespec rq = { 0, 999999999 }; int r2 = nanosleep(&rq, NULL); long long t2 = now_ns();   /* the nanosecond field carries into the seconds at almost any phase */
+  struct timespec rq = { 0, 999999999 }; int r2 = (me & 1) ? nanosleep(&rq, &rq) : nanosleep(&rq, NULL); long long t2 = now_ns();   /* odd threads: the usual restart idiom, remainder written over the request */   /* the nanosecond field carries into the seconds at almost any phase */
   if (r1 == 0 && t1 - t0 >= 400000000LL) ok += 10;
   if (r2 == 0 && t2 - t1 >= 999999999LL) ok += 1;
   return (void *)ok;
